@@ -84,6 +84,15 @@ func genJSONVal(rt *rapid.T, label string, depth int, keys []string) sim.Val {
 			seen[k] = true
 			kvs = append(kvs, sim.KV{K: k, V: genJSONVal(rt, fmt.Sprintf("%s.v%d", label, i), depth-1, keys)})
 		}
+		if len(kvs) > 0 && rapid.IntRange(0, 4).Draw(rt, label+".confusable") == 0 {
+			// a sibling whose name equals an existing one up to letter case, both holding containers: member names
+			// are compared exactly, everywhere (visiting order, identities, lookups)
+			k := kvs[0].K
+			if alt := strings.ToUpper(k); alt != k && !seen[alt] {
+				kvs[0].V = sim.Arr(genPrim(rt, label+".c0"))
+				kvs = append(kvs, sim.KV{K: alt, V: sim.Obj(sim.KV{K: "in", V: genPrim(rt, label+".c1")})})
+			}
+		}
 		return sim.Obj(kvs...)
 	}
 	n := rapid.IntRange(0, 3).Draw(rt, label+".nelems")
